@@ -109,10 +109,13 @@ func (srv *BfeServer) serverDataConfReload(hostFile, vipFile, routeFile, cluster
 		return err
 	}
 
+	// publish the new conf and everything derived from it as one step, so that
+	// concurrent reloads can not leave transports or gslb basic conf of one
+	// version in force together with the server conf of another
 	srv.confLock.Lock()
-	srv.ServerConf = newServerConf
-	srv.confLock.Unlock()
+	defer srv.confLock.Unlock()
 
+	srv.ServerConf = newServerConf
 	srv.ReverseProxy.setTransports(newServerConf.ClusterTable.ClusterMap())
 
 	// set gslb basic
@@ -150,10 +153,11 @@ func (srv *BfeServer) gslbDataConfReload(gslbFile, clusterTableFile string) erro
 		return err
 	}
 
-	// set gslb basic conf
-	srv.confLock.Lock()
+	// set gslb basic conf (confLock is held until done: a server data conf
+	// reload in between would be overwritten with the older conf)
+	srv.confLock.RLock()
+	defer srv.confLock.RUnlock()
 	serverConf := srv.ServerConf
-	srv.confLock.Unlock()
 	srv.balTable.SetGslbBasic(serverConf.ClusterTable)
 	// set slow_start config
 	srv.balTable.SetSlowStart(serverConf.ClusterTable)
